@@ -82,6 +82,22 @@ fn s_step(ctx: &mut Ctx, b: &mut SparseBuilder, m: &mut SModel, op: &SOp, hist: 
                         ctx.violation("sparse_builder.convert.content", format!("converted vector (len, ones, positions) = {:?}, accepted positions {:?} in {}", got, m.values, hist()));
                         return false;
                     }
+                    // Residue of refused calls may hide from a forward walk: compare with a vector built from scratch with
+                    // exactly the accepted values (==, serialized bytes, backward walk).
+                    let reference = guard(|| {
+                        let mut fresh = if m.multiset { SparseBuilder::multiset(m.universe, m.capacity) } else { SparseBuilder::new(m.universe, m.capacity).unwrap() };
+                        for v in m.values.iter() { fresh.set(*v); }
+                        SparseVector::try_from(fresh).unwrap()
+                    });
+                    if let Ok(reference) = reference {
+                        let same_bytes = { let mut a: Vec<u8> = Vec::new(); let mut b: Vec<u8> = Vec::new(); let _ = simple_sds::serialize::Serialize::serialize(&sv, &mut a); let _ = simple_sds::serialize::Serialize::serialize(&reference, &mut b); a == b };
+                        let back = guard(|| sv.one_iter().rev().map(|p| p.1).collect::<Vec<usize>>());
+                        let mut want_back = m.values.clone(); want_back.reverse();
+                        if sv != reference || !same_bytes || back != Ok(want_back) {
+                            ctx.violation("sparse_builder.convert.residue", format!("converted vector differs from one built from scratch with the accepted values {:?} (== {}, same bytes {}, backward walk {:?}) in {}", m.values, sv == reference, same_bytes, back, hist()));
+                            return false;
+                        }
+                    }
                 },
             }
         },
